@@ -360,7 +360,60 @@ def rule_target(P):
     return r
 
 
+def rule_table(P):
+    r = Rule("C07-table", "K8/K4", "the saved-disposition table is only grown in place (realloc of itself) or copied with a length scaled by the element size", floor=2)
+    SIZEWORDS = ("sizeof",)
+    def scaled(e):
+        return any(is_e(q, "int") and len(q) > 2 and q[2] and "sizeof" in q[2] for q in walk(e)) or any(is_e(q, "sizeof") for q in walk(e))
+    for f in P.fns_in("signal.c", "signalfd.c"):
+        for el, lhs, op, rhs in f.stores():
+            if fields_of(lhs)[-1:] != ["evsig_info.sh_old"] or is_e(strip(lhs), "idx"):
+                continue
+            rv = strip(rhs)
+            if is_e(rv, "int") and rv[1] == 0:
+                r.inst((f.name, el.n), {"fn": f.name, "site": el.where(), "store": "NULL"}, nontrivial=False)
+                continue
+            srcs = [rv]
+            if is_e(rv, "var"):
+                srcs = [strip(x) for d, x in f.reaching_defs(rv[1], el)]
+            ok = True
+            why = []
+            for s_ in srcs:
+                c = s_
+                if is_e(c, "call") and callee_name(c) == "event_mm_realloc_" and fields_of(c[2][0])[-1:] == ["evsig_info.sh_old"]:
+                    why.append("realloc of the table itself")
+                    if not scaled(c[2][1]):
+                        ok = False
+                        why.append("new size not scaled by the element size")
+                    continue
+                if is_e(c, "call") and callee_name(c) in ("event_mm_calloc_", "event_mm_malloc_"):
+                    cps = [x for x in f.calls() if callee_name(x.e) in ("memcpy", "memmove", "__builtin_memcpy", "__builtin___memcpy_chk") and fields_of(x.e[2][1])[-1:] == ["evsig_info.sh_old"]]
+                    good = [x for x in cps if scaled(x.e[2][2]) and any(is_e(q, "fld") and q[2] == "evsig_info.sh_old_max" for q in walk(x.e[2][2]))]
+                    if not good:
+                        ok = False
+                        why.append("fresh allocation without a copy of sh_old_max * sizeof(entry) bytes from the old table")
+                    else:
+                        why.append("fresh allocation + scaled copy")
+                    continue
+                ok = False
+                why.append("unrecognised source %s" % show(c)[:40])
+            r.inst((f.name, el.n), {"fn": f.name, "site": el.where(), "sources": why})
+            if not ok:
+                r.bad("K8:%s:saved-table-not-preserved" % f.name, el.where(), f.name,
+                      "the table of saved dispositions is replaced by memory that does not carry over all earlier entries (%s): growing it for a higher signal number forgets the "
+                      "handlers saved for lower ones, which are then never restored" % "; ".join(why))
+        # memset / memcpy over the table: lengths scaled
+        for x in f.calls():
+            n = callee_name(x.e)
+            if n in ("memset", "memcpy", "memmove", "__builtin_memcpy", "__builtin___memcpy_chk", "__builtin___memset_chk") and any(is_e(q, "fld") and q[2] in ("evsig_info.sh_old", "evsig_info.sh_old_max") for a in x.e[2] for q in walk(a)):
+                ok = scaled(x.e[2][2])
+                r.inst((f.name, x.n, n), {"fn": f.name, "site": x.where(), "call": n, "length": show(x.e[2][2])[:60], "scaled_by_element_size": ok})
+                if not ok:
+                    r.bad("K4:%s:unscaled-table-length" % f.name, x.where(), f.name, "%s over the saved-disposition table uses the length `%s`, a slot count rather than a byte count" % (n, show(x.e[2][2])[:50]))
+    return r
+
+
 def run(ctx, config):
     P = ctx.prog(UNITS, config)
     Pall = ctx.prog(None, config)
-    return [rule_who(Pall), rule_saverestore(P), rule_del(P), rule_map(P), rule_counts(P), rule_target(P)]
+    return [rule_who(Pall), rule_saverestore(P), rule_del(P), rule_map(P), rule_counts(P), rule_target(P), rule_table(P)]
